@@ -119,7 +119,20 @@ def gen(rng, i, tier):
     const = rng.random() < 0.12
     cv = val()
     tab = {"vi": vis, "io": ios, z: [[cv if const else val() for _ in ios] for _ in vis]}
-    if z != "eff" and not const and rng.random() < 0.25:
+    shape = "random"
+    if not const and i % 5 == 3:
+        # curves with REPEATED values: equal end points around a different interior (an efficiency curve peaking at
+        # mid load), plateaus of equal neighbours, and (2-D) a first row equal to the last row
+        shape = rng.choice(["equal_ends", "equal_ends", "plateau", "equal_end_rows"])
+        for row in tab[z]:
+            if shape == "equal_ends" and len(row) >= 3:
+                row[-1] = row[0]
+            elif shape == "plateau" and len(row) >= 3:
+                k = rng.randrange(len(row) - 1)
+                row[k + 1] = row[k]
+        if shape == "equal_end_rows" and len(tab[z]) >= 3:
+            tab[z][-1] = list(tab[z][0])
+    if z != "eff" and not const and shape == "random" and rng.random() < 0.25:
         # exact-zero entries are legal for voltage drops and ground currents: single cells, a whole row, a whole column
         how = rng.choice(["cell", "cells", "row", "column"])
         rows_, cols_ = len(tab[z]), len(tab[z][0])
@@ -152,7 +165,7 @@ def gen(rng, i, tier):
         form = "plain"
     return {"kind": kind, "z": z, "table": tab, "qseed": rng.randrange(1 << 30), "const": const,
             "nq": 40 if tier == "quick" else 60, "axis_form": form, "numtype": numtype, "one_object": i % 3 != 0, "plot_first": i % 4 == 1, "mux_fallback": i % 2 == 1,
-            "plot3d": i % 8 == 1}
+            "plot3d": i % 8 == 1, "value_shape": shape}
 
 
 def directed():
@@ -288,6 +301,7 @@ def run(ctx, case):
     tab = normalised(raw_tab, z)
     ctx.see("axis_forms", case.get("axis_form", "plain"))
     ctx.see("number_types", case.get("numtype", "float"))
+    ctx.see("value_shapes", case.get("value_shape", "random"))
     st, comp = H.call(S.make_comp, ns, _c("X", kind, probe_spec(kind, z, raw_tab, 5.0, 1.0)["comps"][1]["args"], ["S"]))
     if st != "ok":
         raise RuntimeError("well-conditioned table rejected: %s" % H.exc_sig(comp))
